@@ -56,7 +56,7 @@ def families(tier, seed):
     for left, right in (('TRUE', None), ('FALSE', None), (None, 'TRUE'), (None, 'FALSE'),
                         ('TRUE', 'FALSE'), ('FALSE', 'TRUE')):
         out.append(_c(f'_flatten_since constant operands {left} S {right}', pn.h_since_const(left, right)))
-    Lg = 4 if tier == 'quick' else 5
+    Lg = 4 if tier == 'quick' else 6
     gen = pn.generated_formulas(tier)
     chunk = 40
     for i in range(0, len(gen), chunk):
@@ -74,7 +74,7 @@ def families(tier, seed):
                     acc['bounded']['failures'] += r['bounded']['failures']
             return acc
         out.append(dict(name=f'translate e2e L={Lg} generated formulas {i}..{i + len(part) - 1}', run=run, label='bounded'))
-    L = 5 if tier == 'quick' else 7
+    L = 5 if tier == 'quick' else 9
     for fml in pn.E2E:
         out.append(dict(name=f'translate e2e L={L} {fml}', run=pn.h_translate_e2e(fml, L), label='bounded'))
     for fml in pn.E2E_UNTIL:
@@ -84,5 +84,5 @@ def families(tier, seed):
 
 def coverage_extra(results):
     return dict(bounded_parameters=dict(
-        trace_length='node-level proofs: unbounded; end-to-end: 5 (quick) / 7 (thorough)',
+        trace_length='node-level proofs: unbounded; end-to-end: 5 / 4 generated (quick), 9 / 6 generated (thorough)',
         formulas='node-level: all (structural induction); end-to-end: fixed list'))
